@@ -150,6 +150,8 @@ def eval_twitter(case, out):
     _guard(out, "twitter", "is_twitter_url", T.is_twitter_url, url)
     if ok and rec is not None and not isinstance(rec, (T.TwitterTweet, T.TwitterUser, T.TwitterList)):
         out.append(("C19/twitter/type", "parse_twitter_url(%r) returned %r" % (url, rec)))
+    elif ok and rec is not None and any(not isinstance(v, str) or v == "" for v in rec):
+        out.append(("C19/twitter/malformed/%s" % type(rec).__name__, "parse_twitter_url(%r) returned %r: an empty field is not a well-formed record" % (url, rec)))
     return ok and rec is not None
 
 
@@ -274,7 +276,8 @@ SPEC = {
         reduced=["videos", "photos", "posts", "permalink", "groups", "people", "123456789", "1234567", "zuck", "a.123"],
         queries=["", "v=123", "fbid=10&set=g.1", "fbid=10&set=a.2", "fbid=10&set=a.2&set=g.1", "fbid=10", "story_fbid=5&id=6", "id=6", "story_fbid=5",
                  "u=http%3A%2F%2Fx.com", "set=a.2", "v=", "id=", "fbid=&set=", "x=1&amp;id=7",
-                 "v", "fbid&set=a.2", "fbid=10&set", "story_fbid&id=6", "story_fbid=5&id", "id", "u", "fbid=10&set=g.1&set=a.2"],
+                 "v", "fbid&set=a.2", "fbid=10&set", "story_fbid&id=6", "story_fbid=5&id", "id", "u", "fbid=10&set=g.1&set=a.2",
+                 "fbid=10&set=g.", "fbid=10&set=a.", "fbid=10&set=g.&set=a.2"],
         fragments=[""],
         options=[{"allow_relative_urls": False}, {"allow_relative_urls": True}],
     ),
@@ -291,7 +294,7 @@ SPEC = {
     ),
     "twitter": dict(
         hosts=["https://twitter.com", "twitter.com", "https://x.com", "http://mobile.twitter.com"],
-        full=["i", "lists", "status", "statuses", "home", "explore", "search", "hashtag", "messages", "@jack", "jack", "Jack", "123456", "web", "events", "", "Home", "I", "Explore"],
+        full=["i", "lists", "status", "statuses", "home", "explore", "search", "hashtag", "messages", "@jack", "jack", "Jack", "123456", "web", "events", "", "Home", "I", "Explore", "@", "@@jack"],
         reduced=["i", "lists", "status", "jack", "123456", "home"],
         queries=["", "s=20", "lang=fr"],
         fragments=["", "!/jack", "!jack/status/1", "!", "!/i", "!/i/lists", "!/home"],
